@@ -9,6 +9,8 @@ def main():
     ap.add_argument("--replay", default=None)
     a = ap.parse_args()
     tier, seed = common.tier_seed(a.tier)
+    import os
+    os.environ["VERIF_TIER"] = tier        # deadlines and budgets further down read the tier from the environment
     try:
         mod = importlib.import_module("specs." + a.prop)
     except ModuleNotFoundError as e:
